@@ -392,7 +392,11 @@ func checkInput(rt reflect.Type, in *Derived, baseVal reflect.Value) *evid.Failu
 		if uerr != nil {
 			return fail("insert-error", "Unmarshal skips well-formed unknown fields"+where, uerr.Error(), "nil error (base decodes)")
 		}
-		if r := pgen.Compare(baseVal.Elem(), fresh.Elem(), pgen.Tol{}, false); r.Diff != "" {
+		// For a top-level pointer type the pointers themselves carry no wire
+		// information (the empty input is documented to decode to the zero
+		// value, i.e. nil, while any field makes the decoder allocate): the
+		// values behind the top-level pointer chain are compared, nil = zero.
+		if r := pgen.Compare(derefTop(baseVal.Elem()), derefTop(fresh.Elem()), pgen.Tol{}, false); r.Diff != "" {
 			return fail("insert-mismatch", "inserting unknown fields does not change the decoded value"+where, r.Diff+" base="+hexTrunc(in.Base), "equal to Unmarshal(base)")
 		}
 	}
@@ -440,6 +444,19 @@ func checkInput(rt reflect.Type, in *Derived, baseVal reflect.Value) *evid.Failu
 		}
 	}
 	return nil
+}
+
+// derefTop follows a top-level pointer chain; a nil pointer stands for the
+// zero value of the type it would point to.
+func derefTop(v reflect.Value) reflect.Value {
+	for v.Kind() == reflect.Ptr {
+		if v.IsNil() {
+			v = reflect.Zero(v.Type().Elem())
+		} else {
+			v = v.Elem()
+		}
+	}
+	return v
 }
 
 func hexTrunc(b []byte) string {
@@ -738,6 +755,9 @@ func TestDecode(t *testing.T) {
 			c.Value = pgen.GenValue(rt, &c.Type, o)
 			c.Seed = rapid.Uint64().Draw(rt, "seed")
 			evid.Label("values")
+			if l := pgen.TopShapeLabel(&c.Type); l != "" {
+				evid.Label(l)
+			}
 			if evid.SampleWanted() {
 				evid.Sample(c)
 			} else {
